@@ -142,6 +142,7 @@ func runC16(c *Ctx) {
 	}
 
 	checkOptionSplitter(c, "C16.R7")
+	importRulesNoRec(c, runC08, map[string]string{"C08.R1": "C16.R9", "C08.R2": "C16.R9"}, map[string]string{"C16.R9": "the exception the option is derived from is not dropped by the badfilter filter unless a badfilter rule negates it: decided per candidate, never carried over (shared with C08.R1/R2)"})
 	importRulesNoRec(c, runC06, map[string]string{"C06.R2": "C16.R6", "C06.R3": "C16.R6"}, map[string]string{"C16.R6": "the basic rule the option is derived from is selected by the documented admission table: an exception is never discarded by a referrer's $genericblock/$urlblock (shared with C06.R2/R3)"})
 
 	// ---------- R2 ----------
